@@ -183,6 +183,14 @@ func (d *emuCurveDesc) edgeScalars(rng *rand.Rand) []namedInt {
 		push("random", randNonzero(rng, r))
 	}
 	push("random+r", d.oversized(rng))
+	// values that fit the limbs but not the width of the modulus: not elements of
+	// the scalar type (no compiled circuit accepts them as a witness); the cases
+	// built from them are executed in the test engine and counted, no verdict
+	wide := d.nbLimbs * 64
+	if wide > d.capBit {
+		out = append(out, namedInt{"wide:2r", new(big.Int).Lsh(r, 1)})
+		out = append(out, namedInt{"wide:all-ones", add(new(big.Int).Lsh(bi(1), uint(wide)), -1)})
+	}
 	return out
 }
 
@@ -408,6 +416,13 @@ func (d *emuCurveDesc) genEmuCases(rng *rand.Rand, native *big.Int) []*emuCase {
 				want = c.add(c.mul(want, f.g), f.ps[i])
 			}
 			mk("MultiScalarMulFold", complete, f.class, f.ps, []*big.Int{f.g}, want, complete || (!f.unsafe && !want.Inf))
+		}
+	}
+	for _, cs := range out {
+		for _, k := range cs.Ks {
+			if k.BitLen() > d.capBit {
+				cs.Wide, cs.InDomain = true, false
+			}
 		}
 	}
 	if c.Name == "BN254" && d.pkg == "sw_emulated" {
@@ -678,6 +693,20 @@ func (j *emuJudge) judge(d *emuCurveDesc, c *emuCase, o outcome) {
 	}
 	if o.Err == "scalar-not-representable" {
 		r.Inconclusive(f + ":scalar-not-representable")
+		return
+	}
+	if c.Wide {
+		what := "unsatisfiable"
+		if o.Hang || o.Crash != "" || o.Panic != "" {
+			what = "no-answer"
+		} else if o.Sat && o.Correct {
+			what = "equals-[s mod r]P"
+		} else if o.Sat {
+			what = "differs-from-[s mod r]P"
+		}
+		r.Count(f+".no-verdict(scalar-wider-than-the-modulus)."+what, 1)
+		r.Count(f+".no-verdict(scalar-wider-than-the-modulus)."+what+"."+c.Op, 1)
+		r.SampleClass(f+"/"+c.Op+"/"+mode+"/no-verdict-wide-scalar/"+what, map[string]any{"curve": c.Curve, "class": c.Class, "gadget": o.Got, "[s mod r]P": c.Want.String()})
 		return
 	}
 	if poolTrouble(r, f, o, c.replay(), fmt.Sprintf("%s/%s/%s", fam, glvKind(d), mode)) {
